@@ -56,7 +56,7 @@ def _slices():
     rnt = K.extract_braced(csv, r"Own<RamDomain\[\]> readNextTuple\(\) override\s*\{", "readNextTuple")
     f["case_i"], _, _ = K.extract_between(rnt, r"case 'i': \{", r"case 'u': \{", "readNextTuple case 'i'")
     f["case_u"], _, _ = K.extract_between(rnt, r"case 'u': \{", r"case 'f': \{", "readNextTuple case 'u'")
-    f["complete_check"] = K.extract_braced(rnt, r"if \(charactersRead != element\.size\(\)\)\s*\{", "completeness check")
+    f["complete_check"] = K.extract_braced(rnt, r"if \(charactersRead\s*[!=<>]+\s*element\.size\(\)\)\s*\{", "completeness check")
     for k in ("case_i", "case_u"):
         if "charactersRead" not in f[k]:
             raise EngineError("slice %s does not mention charactersRead" % k)
@@ -211,7 +211,12 @@ HARNESS = r'''
 #define VASSERT(c, m) __CPROVER_assert(c, m)
 #endif
 int g_must = 0;      /* the independent recogniser says: strict, complete, in range -> must be accepted */
+#ifdef WITNESS
+/* non-vacuity: the rejecting path counts as reached as well (an input class may consist of rejected inputs only) */
+void verif_throw(void){ __CPROVER_assert(0, "witness (reject path)"); __CPROVER_assume(0); }
+#else
 void verif_throw(void){ VASSERT(!g_must, "a complete, valid, in-range literal is rejected"); __CPROVER_assume(0); }
+#endif
 void verif_overflow(void){ __CPROVER_assert(0, "bounded string capacity exceeded (bound too small)"); __CPROVER_assume(0); }
 void verif_abort(void){ VASSERT(0, "assert()/abort reached: the loader crashes on this field"); __CPROVER_assume(0); }
 void verif_unsupported(void){ __CPROVER_assert(0, "construct outside the modelled fragment reached"); __CPROVER_assume(0); }
